@@ -371,6 +371,17 @@ StepKernel(P, m, op) ==
   IF op.sv[1] \notin {"kernel.mul", "kernel.add", "kernel.mac", "kernel.qmac", "kernel.rescale"} THEN Fault(m, "Unsupported:" \o op.sv[1])
   ELSE Adv(Def(P, m, op.r, <<KernelSem(op, Vals(m, op.a), m.env[P.args[Len(P.args)]], op.w)>>))
 
+(* snax.alloc(size, shapes...): a fresh buffer instance; the event records the static site and the evaluated size *)
+StepSnaxAlloc(P, m, op) ==
+  LET t == InternAll(m.uf, <<"alloc", <<op.sv[1]>>, <<-1 - m.nalloc>>>>, 1, <<>>)
+      ev == [k |-> "alloc", i |-> m.pc, site |-> op.iv[1], inst |-> t[2][1], size |-> m.env[op.a[1]],
+             shapes |-> [j \in 1..(Len(op.a) - 1) |-> m.env[op.a[j + 1]]]] IN
+  Adv(Def(P, Log([m EXCEPT !.uf = t[1], !.nalloc = @ + 1], ev), op.r, t[2]))
+
+(* casts that only re-type a value are aliases of their source *)
+StepAlias(P, m, op) ==
+  IF Len(op.a) = 1 /\ Len(op.r) = 1 THEN Adv(Def(P, m, op.r, <<m.env[op.a[1]]>>)) ELSE StepPure(P, m, op)
+
 MStepRaw(P, orc, m) ==
   LET i == m.pc  op == P.ops[i] IN
   IF i > Len(P.ops) THEN [m EXCEPT !.status = "done"]
@@ -386,6 +397,8 @@ MStepRaw(P, orc, m) ==
          [] op.k = "while" -> StepWhile(P, m, i, op)
          [] op.k = "cond" -> StepCond(P, m, i, op)
          [] op.k = "kernel" -> StepKernel(P, m, op)
+         [] op.k = "snaxalloc" -> StepSnaxAlloc(P, m, op)
+         [] op.k \in {"ucc", "viewcast"} -> StepAlias(P, m, op)
          [] op.k = "lyield" -> Log([m EXCEPT !.status = "done"], [k |-> "ret", i |-> i, vals |-> Vals(m, op.a)])
          [] op.k = "ret" -> Log([m EXCEPT !.status = "done"], [k |-> "ret", i |-> i, vals |-> Vals(m, op.a)])
          [] op.k = "setup" -> StepSetup(P, m, op)
